@@ -114,7 +114,10 @@ impl C04 {
         self.ledger.touch(res);
         match build(res, tt, batch) {
             Built::Ok(e) => {
-                self.ledger.pass(res, inbound, t, batch as u64);
+                // a queued (throttled) entry is held inside build(): it passes when it is released,
+                // its response time counts from its creation
+                let t_pass = now_ms();
+                self.ledger.pass(res, inbound, t_pass, batch as u64);
                 self.open.push(Open { e, res, inbound, batch, start: t });
                 self.passes += 1;
                 Ok(true)
@@ -153,6 +156,10 @@ impl Subject for C04 {
         }
         if r == "flow-b" || r == "mixed" {
             flow::load_rules(vec![Arc::new(flow::Rule { id: "flow".into(), resource: B.into(), threshold: 2.0, ..Default::default() })]);
+        }
+        if r == "throttle-b" {
+            // a throttling rule that queues (and sometimes rejects) entries on b
+            flow::load_rules(vec![Arc::new(flow::Rule { id: "thr".into(), resource: B.into(), threshold: 2.0, stat_interval_ms: 1000, control_strategy: flow::ControlStrategy::Throttling, max_queueing_time_ms: 600, ..Default::default() })]);
         }
         if r == "system-concurrency" || r == "mixed" {
             system::load_rules(vec![Arc::new(system::Rule { id: "sys".into(), metric_type: system::MetricType::Concurrency, threshold: 2.0, ..Default::default() })]);
@@ -240,7 +247,7 @@ impl Subject for C04 {
 pub fn configs(thorough: bool) -> Vec<Cfg> {
     let mut v = vec![];
     let phases: &[u64] = if thorough { &[0, 1, 499] } else { &[0, 499] };
-    for r in ["none", "isolation-a", "flow-b", "breaker-open-a", "system-concurrency", "hotspot-b", "mixed"] {
+    for r in ["none", "isolation-a", "flow-b", "breaker-open-a", "system-concurrency", "hotspot-b", "mixed", "throttle-b"] {
         for ph in phases {
             v.push(Cfg { rules: r.into(), phase: *ph });
         }
